@@ -61,7 +61,7 @@ pub proof fn lemma_kept_size_bound(ix: VIndex, c: Seq<DataId>, n: int)
 // ---- TreeModifier::modify_tree: the bottom-up rewriting engine of rewrite and repair ----
 pub struct Tree { pub nodes: Vec<Node> }
 impl Tree {
-    pub fn new() -> (r: Tree) ensures r.nodes@.len() == 0, { Tree { nodes: Vec::new() } }
+    pub fn new() -> (r: Tree) ensures r.nodes@ == Seq::<Node>::empty(), { Tree { nodes: Vec::new() } }
     pub fn add(&mut self, node: Node) ensures final(self).nodes@ == old(self).nodes@.push(node), { self.nodes.push(node); }
 }
 #[verifier::external_body]
@@ -79,10 +79,32 @@ impl PathBuf {
     pub fn clone(&self) -> (r: PathBuf) ensures r == *self, { unimplemented!() }
 }
 // a visitor (RepairState, the rewrite visitor ...): arbitrary answers.  Ghost bookkeeping: `reported` remembers whether it
-// ever asked for a change; `dirty` is a stack with one flag per tree level being processed -- set when an answer at that
-// level demands that the tree be rewritten (a node changed / removed / created, a subtree changed or removed)
-pub struct VVisitor { pub reported: Ghost<bool>, pub dirty: Ghost<Seq<bool>> }
-pub open spec fn set_top(s: Seq<bool>, b: bool) -> Seq<bool> { if s.len() == 0 { s } else { s.update(s.len() - 1, s.last() || b) } }
+// ever asked for a change; `levels` is a stack with one record per tree level being processed:
+//   dirty   -- an answer at that level demands that the tree be rewritten (a node changed / removed / created, a subtree
+//              changed or removed)
+//   expect  -- the nodes the rebuilt tree of that level must consist of, in order, as the answers so far dictate
+//   pending -- the directory node whose subtree is being visited right now (between process_node and post_process_tree)
+pub ghost struct Level { pub dirty: bool, pub expect: Seq<Node>, pub pending: Option<Node> }
+pub struct VVisitor { pub reported: Ghost<bool>, pub levels: Ghost<Seq<Level>> }
+pub uninterp spec fn TREE_ID(nodes: Seq<Node>) -> TreeId;   // id of the serialized tree
+pub open spec fn with_subtree(n: Node, t: TreeId) -> Node { Node { subtree: Some(t), ..n } }
+pub open spec fn upd_top(s: Seq<Level>, l: Level) -> Seq<Level> { if s.len() == 0 { s } else { s.update(s.len() - 1, l) } }
+pub open spec fn after_answer(l: Level, r: NodeAction) -> Level {
+    match r {
+        NodeAction::Node(n, ch) => Level { dirty: l.dirty || ch, expect: l.expect.push(n), pending: None },
+        NodeAction::Removed => Level { dirty: true, expect: l.expect, pending: None },
+        NodeAction::CreateTree(n) => Level { dirty: true, expect: l.expect.push(with_subtree(n, TREE_ID(Seq::empty()))), pending: None },
+        NodeAction::VisitTree(_, n, ch) => Level { dirty: l.dirty || ch, expect: l.expect, pending: Some(n) },
+    }
+}
+pub open spec fn after_subtree(l: Level, r: ModifierChange) -> Level {
+    match (r, l.pending) {
+        (ModifierChange::Removed, _) => Level { dirty: true, expect: l.expect, pending: None },
+        (ModifierChange::Unchanged, Some(n)) => Level { dirty: l.dirty, expect: l.expect.push(n), pending: None },
+        (ModifierChange::Changed(t), Some(n)) => Level { dirty: true, expect: l.expect.push(with_subtree(n, t)), pending: None },
+        (_, None) => Level { dirty: l.dirty || !(r is Unchanged), expect: l.expect, pending: None },
+    }
+}
 impl VVisitor {
     #[verifier::external_body]
     pub fn pre_process(&self, path: &PathBuf, id: TreeId) -> (r: ModifierAction)
@@ -92,23 +114,29 @@ impl VVisitor {
     #[verifier::external_body]
     pub fn pre_process_tree(&mut self, tree: RusticResult<Tree>) -> (r: RusticResult<TreeAction>)
         ensures final(self).reported@ == (old(self).reported@ || (r matches Ok(TreeAction::ProcessChangedTree(_)))),
-            r is Ok ==> final(self).dirty@ == old(self).dirty@.push(r matches Ok(TreeAction::ProcessChangedTree(_))),
+            r is Ok ==> final(self).levels@ == old(self).levels@.push(Level { dirty: r matches Ok(TreeAction::ProcessChangedTree(_)), expect: Seq::empty(), pending: None }),
     { unimplemented!() }
     #[verifier::external_body]
     pub fn process_node(&mut self, path: &PathBuf, node: Node, id: TreeId) -> (r: NodeAction)
         ensures ({ let ch = match r { NodeAction::Node(_, ch) => ch, NodeAction::Removed => true, NodeAction::CreateTree(_) => true, NodeAction::VisitTree(_, _, ch) => ch };
-            final(self).reported@ == (old(self).reported@ || ch) && final(self).dirty@ == set_top(old(self).dirty@, ch) }),
+            final(self).reported@ == (old(self).reported@ || ch) }),
+            old(self).levels@.len() > 0 ==> final(self).levels@ == upd_top(old(self).levels@, after_answer(old(self).levels@.last(), r)),
+            old(self).levels@.len() == 0 ==> final(self).levels@ == old(self).levels@,
     { unimplemented!() }
     #[verifier::external_body]
     pub fn post_process_tree(&mut self, path: PathBuf, tree: TreeId, parent_tree: TreeId, modify_result: ModifierChange) -> (r: ModifierChange)
-        ensures final(self).reported@ == (old(self).reported@ || !(r is Unchanged)), final(self).dirty@ == set_top(old(self).dirty@, !(r is Unchanged)),
+        ensures final(self).reported@ == (old(self).reported@ || !(r is Unchanged)),
+            old(self).levels@.len() > 0 ==> final(self).levels@ == upd_top(old(self).levels@, after_subtree(old(self).levels@.last(), r)),
+            old(self).levels@.len() == 0 ==> final(self).levels@ == old(self).levels@,
     { unimplemented!() }
-    // called once at the end of a processed level: closes it.  OBLIGATION: if an answer at this level demanded a rewrite,
-    // the tree was rebuilt and saved (`rewritten` = the local `changed` flag that guards save_tree)
+    // called once at the end of a processed level: closes it.  OBLIGATIONS: the rebuilt tree consists of exactly the nodes
+    // the answers of this level dictate, in order; and if an answer demanded a rewrite, the tree was rebuilt and saved
+    // (`rewritten` = the local `changed` flag that guards save_tree)
     #[verifier::external_body]
     pub fn post_process(&mut self, path: PathBuf, id: TreeId, new_id: Option<TreeId>, tree: &Tree, Ghost(rewritten): Ghost<bool>)
-        requires old(self).dirty@.len() > 0, old(self).dirty@.last() ==> rewritten,
-        ensures final(self).reported@ == old(self).reported@, final(self).dirty@ == old(self).dirty@.drop_last(),
+        requires old(self).levels@.len() > 0, old(self).levels@.last().dirty ==> rewritten,
+            tree.nodes@ == old(self).levels@.last().expect,
+        ensures final(self).reported@ == old(self).reported@, final(self).levels@ == old(self).levels@.drop_last(),
     { unimplemented!() }
 }
 pub struct VBeM { pub _opaque: u64 }
@@ -120,6 +148,7 @@ impl<'a> TreeModifier<'a> {
     #[verifier::external_body]
     pub fn vsave_tree(&self, changed: bool, t: &Tree) -> (r: RusticResult<TreeId>)
         requires changed,
+        ensures r matches Ok(id) ==> id == TREE_ID(t.nodes@),
     { unimplemented!() }
 }
 
